@@ -1,5 +1,10 @@
 # Claim table: one entry per property that has a built check.
 CLAIMS = {
+ "C22": {
+  "text": "Decides statically the mechanisms that make accumulation independent of hash-map order and goroutine scheduling: every range over a map in internal/accumulation and PVM's accumulate-invocation code is classified (order-independent body / product sorted by a total order before any other use / product consumed only by a reviewed commutative consumer, reasons in the table); the SenderID sort that makes deferred-transfer delivery independent of the producing map order; concurrently running closures write only index-addressed slots or mutex-protected maps and never append to captured slices; singleflight keys are injective and the 'shared' flag is unused. Necessary conditions, not equality of posterior states.",
+  "note": "Trusted: the reviewed-consumer table (5 entries, each with the consumer and why it is commutative), go/types, go/ssa. Calls on the right-hand side of := inside a map loop are assumed order-pure unless they receive an encoder/writer/hash. Not decided: stability of the transfer sort for equal senders beyond contiguity, comparator totality of other sorts.",
+  "technique": "static analysis: AST/type effect classification of map ranges (sorted-before-use), SSA lockset + store classification of goroutine closures, expression-shape check of singleflight keys",
+ },
  "C28": {
   "text": "Decides, on SSA, the lock/ordering mechanisms that carry wire/ID alignment in internal/telemetry: guarded sequencer/drop state only under the sequencer lock (requires-lock set inferred to a fixpoint), no re-acquisition, nothing blocking under the lock or anywhere in the emit paths, the producer section (nextID → exactly one non-blocking send of envelope{id} or drops.record(id)), parent validation in the same section, claim-before-write in the writer, the expected-wire-ID counter regions, the connect/reconnect ordering, and the ID arithmetic shapes. A structural necessary-condition check, not a proof of alignment over all interleavings.",
   "note": "Trusted: go/types, go/ssa, the blocking-operation classification table, instance-insensitive lock abstraction (one sequencer per client). Not decided: alignment across every interleaving, frame well-formedness.",
